@@ -318,10 +318,10 @@ LogicAlias(p, xor, x, y) ==
               \o Overrides(honest, aliased, {7, 8})]
 AliasX == << BInt(5), BigLow(Rnd(81), 250) >>
 TruncAliasCases ==
-  Flat(Map(IF Quick THEN <<1, 64, 128, 192, 254>> ELSE <<1, 2, 8, 64, 127, 128, 199, 200, 201, 250, 253, 254>>,
+  Flat(Map(IF Quick THEN <<1, 64, 128, 192, 254>> ELSE [i \in 1..254 |-> i],
            LAMBDA n : Map(AliasX, LAMBDA x : TruncAlias(n, x))))
 LogicAliasCases ==
-  Flat(Map(IF Quick THEN <<1, 32, 64, 96, 127>> ELSE <<1, 2, 32, 64, 99, 100, 101, 125, 126, 127>>,
+  Flat(Map(IF Quick THEN <<1, 32, 64, 96, 127>> ELSE [i \in 1..127 |-> i],
            LAMBDA p : Flat(Map(<<TRUE, FALSE>>, LAMBDA o : Map(AliasX, LAMBDA x : LogicAlias(p, o, x, Rnd(82)))))))
 
 \* ---- closing-first adversary for the range gadget (C09): for an out-of-range value the
